@@ -103,7 +103,8 @@ CHECKS = {
         technique="Coq proof (identity carried by every re-creating operation; shown text kept by the re-encoding) + history-level and re-creation differential testing + "
                   "end-to-end decoded author/date/message/notes oracle"),
     "C09": dict(category="proof", design_ref="DESIGN.md section 4/C09", note=HIST_NOTE, technique=HIST_TECH,
-        text="Theorems: a conflict halt keeps every earlier push; halted transactions never exit 0; with conflicts "
+        text="Whole-command: whichever modelled command halts with status 3 having recorded one entry, `stg undo --hard` restores the stack it found with a clean index and the head's work tree (C09_undo_hard_undoes_halted_step, all commands, non-vacuity witness with real unmerged entries). "
+             "Theorems: a conflict halt keeps every earlier push; halted transactions never exit 0; with conflicts "
              "disallowed nothing is touched; guarded commands and undo without --hard refuse while the index is "
              "unmerged; source ties: check_conflicts is called unguarded in push/pop/goto/float/sink/delete/new/"
              "squash/spill and CONFLICT_ERROR = 3; for all 23 modelled commands the transaction-builder options in the "
@@ -145,7 +146,13 @@ CHECKS = {
              "exactly the commits committed before; source tie: uncommit runs with set_head(false), "
              "use_index_and_worktree(false)."),
     "C13": dict(category="proof", design_ref="DESIGN.md section 4/C13", note=HIST_NOTE, technique=HIST_TECH,
-        text="Theorems: repair_appliedness is a permutation; repair never touches index/work tree; on a consistent "
+        text="Whole-command theorems: repair on a consistent stack (branch = recorded head = top, no unapplied / hidden "
+             "patch's commit on the walked path) changes nothing but the log - lists, every patch's commit, head, branch, "
+             "index, work tree, patch refs - for every world whose store is acyclic and for every world reachable by "
+             "commands (C13_repair_consistent_noop, _reachable); the age invariant of the store is proved for every command "
+             "(C13_plain_parents_older_invariant); a second repair changes nothing (partial: its success is a premise); "
+             "the first form without the age condition is refuted. "
+             "Theorems: repair_appliedness is a permutation; repair never touches index/work tree; on a consistent "
              "stack the first-parent walk finds exactly the applied patches; walked names are patches, patchified "
              "commits are single-parent non-patches; source tie: RequireInitialized, is_protected first, no work tree. "
              "Fix F23 (branch moved back to the old base under a merge) is modelled; F6 is a known finding."),
